@@ -60,7 +60,7 @@ def comm_scan(scratch):
     return n, bad
 
 
-def run_gen(ctx, runname, n, P, basis=None, delay=None, tag=""):
+def run_gen(ctx, runname, n, P, basis=None, delay=None, tag="", prior=()):
     """Fresh scratch copy of the scratch copy (so libraries of different P do not mix). Returns dict."""
     work = esrv.mkscratch("c13")
     dst = os.path.join(work, "repo")
@@ -72,7 +72,8 @@ def run_gen(ctx, runname, n, P, basis=None, delay=None, tag=""):
         extra["ESR_VERIF_BASIS"] = json.dumps(basis)
     if delay is not None:
         extra["FAKE_MPI_DELAY"] = str(delay)
-    res = esrv.run_mpi(dst, GEN, [runname, str(n)], P, extra=extra, timeout=900)
+    # `prior`: complexities generated before n in the SAME process of every rank (the usual `for n: main(run, n)` loop)
+    res = esrv.run_mpi(dst, GEN, [runname] + [str(k) for k in prior] + [str(n)], P, extra=extra, timeout=900)
     colls = []
     for r in range(P):
         p = os.path.join(tr, "coll.%d" % r)
@@ -92,6 +93,17 @@ def cases(ctx):
         libs += [(nm, n, b) for nm, b in SUBBASES for n in (3, 4)]
         ranks = list(range(2, 17))
         delays = {2: [ctx.seed, ctx.seed + 1], 3: [ctx.seed, ctx.seed + 1], 7: [ctx.seed]}
+    # directed cases: (run name, n, basis, rank counts, complexities generated earlier in the same process)
+    #  - a tiny basis: more ranks than labelled trees of a shape (ranks without work in shape_to_functions and later stages)
+    #  - two generations in one process per rank (state that survives a generation, e.g. numpy's global random state
+    #    advanced on rank 0 only, must not influence the next one)
+    tiny = [["x", "a"], ["inv"], ["+", "*"]]
+    directed = [("verif_tiny", 3, tiny, [9, 12, 16], ()), ("verif_tiny", 4, tiny, [16], ()),
+                ("core_maths", 4, None, [2, 3], (3,))]
+    if not ctx.quick:
+        directed += [("verif_tiny", 2, tiny, [7, 16], ()), ("verif_tiny", 5, tiny, [13, 16], ()), ("core_maths", 5, None, [2, 5], (3, 4)),
+                     ("keep_duplicates", 3, None, [2, 4], (1, 2))]
+    ctx.c13_directed = directed
     return libs, ranks, delays
 
 
@@ -118,8 +130,9 @@ def correspondence(ctx):
     libs, ranks, delays = cases(ctx)
     ctx.oracle_jobs = []
     stats = {"runs": 0, "ranks": sorted(set([1] + ranks)), "libs": [l[:2] for l in libs]}
-    for runname, n, basis in libs:
-        ref = run_gen(ctx, runname, n, 1, basis)
+    jobs = [(runname, n, basis, None, ()) for runname, n, basis in libs] + list(ctx.c13_directed)
+    for runname, n, basis, own_ranks, prior in jobs:
+        ref = run_gen(ctx, runname, n, 1, basis, prior=prior)
         stats["runs"] += 1
         if ref["rc"] != [0]:
             rep.fail("failing-input", "generation fails on one rank for %s n=%d: %s" % (runname, n, ref["err"][0][-300:]),
@@ -130,17 +143,19 @@ def correspondence(ctx):
         todo = [(P, None) for P in ranks] + [(P, d) for P, ds in delays.items() for d in ds]
         if ctx.quick and n >= 5:
             todo = [(2, None), (3, None)]
+        if own_ranks is not None:
+            todo = [(P, None) for P in own_ranks]
         for P, delay in todo:
-            out = run_gen(ctx, runname, n, P, basis, delay)
+            out = run_gen(ctx, runname, n, P, basis, delay, prior=prior)
             stats["runs"] += 1
-            key = (runname, n, P, delay)
+            key = (runname, n, P, delay, tuple(prior))
             rep.case(key=key, nontrivial=True,
-                     sample={"basis": runname, "n": n, "P": P, "delay_seed": delay, "exit": out["rc"], "collectives_rank0": len(out["colls"][0])})
+                     sample={"basis": runname, "n": n, "P": P, "delay_seed": delay, "generated_before_in_same_process": list(prior), "exit": out["rc"], "collectives_rank0": len(out["colls"][0])})
             if any(rc != 0 for rc in out["rc"]):
                 badr = [r for r, rc in enumerate(out["rc"]) if rc != 0]
                 rep.fail("failing-input", "generation does not terminate cleanly on all ranks: %s n=%d P=%d ranks %s: %s" % (
                     runname, n, P, badr, out["err"][badr[0]].strip().splitlines()[-1:] ),
-                    "C13:gen:rank-crash", input={"basis": runname, "basis_functions": basis, "n": n, "P": P, "delay_seed": delay},
+                    "C13:gen:rank-crash", input={"basis": runname, "basis_functions": basis, "n": n, "P": P, "delay_seed": delay, "generated_before_in_same_process": list(prior)},
                     observed={"exit": out["rc"], "stderr": out["err"][badr[0]]}, expected="exit 0 on every rank")
                 shutil.rmtree(out["work"], ignore_errors=True)
                 continue
@@ -157,7 +172,7 @@ def correspondence(ctx):
                 a, b = os.path.join(ref["lib"], fn), os.path.join(out["lib"], fn)
                 if not (os.path.exists(a) and os.path.exists(b) and filecmp.cmp(a, b, shallow=False)):
                     rep.fail("failing-input", "%s differs between 1 and %d ranks (%s n=%d)" % (fn, P, runname, n),
-                             "C13:bytes:%s" % pat.split("_%d")[0], input={"basis": runname, "basis_functions": basis, "n": n, "P": P, "delay_seed": delay},
+                             "C13:bytes:%s" % pat.split("_%d")[0], input={"basis": runname, "basis_functions": basis, "n": n, "P": P, "delay_seed": delay, "generated_before_in_same_process": list(prior)},
                              observed="file differs or is missing", expected="byte-identical to the one-rank output")
                     break
             try:
